@@ -10,6 +10,7 @@ import (
 func init() {
 	vrt.Register("VerifC07Regular", VerifC07Regular)
 	vrt.Register("VerifC07Traits", VerifC07Traits)
+	vrt.Register("VerifC07Component", VerifC07Component)
 }
 
 const c07LPkg = "github.com/cocosip/go-dicom-codecs/jpegls/lossless"
@@ -119,4 +120,93 @@ func VerifC07Traits() {
 	vrt.Assert(d <= near && d >= -near, "C07 kernel: reconstruction within NEAR")
 	vrt.Assert(rec >= 0 && rec <= maxVal, "C07 kernel: reconstruction in [0, MAXVAL]")
 	vrt.Out("rec", rec)
+}
+
+// VerifC07Component: the single-component near-lossless coder
+// (encodeComponent / decodeComponent with their inline regular-mode code) on a
+// 3x2 image: five concrete samples (run mode, run interruption, one regular
+// sample from the initial state) and a symbolic LAST sample coded in regular
+// mode from an arbitrary state of its context.
+func VerifC07Component() {
+	Ps := []int{6, 8, 12, 7, 16}
+	P := Ps[vrt.Choice("Pi", 0, vrt.Param("nP", 1)-1)]
+	nears := []int{1, 2, 0, 3}
+	near := nears[vrt.Choice("near", 0, vrt.Param("nNear", 1)-1)]
+	maxVal := 1<<uint(P) - 1
+	hi := maxVal - maxVal/4
+	row0 := []int{0, 0, hi}
+	row1 := []int{0, 0}
+	if vrt.Choice("variant", 0, 1) == 1 {
+		row0 = []int{maxVal, maxVal, maxVal - hi}
+		row1 = []int{maxVal, maxVal}
+	}
+	x := vrt.Int("x", 0, maxVal)
+	epix := []int{row0[0], row0[1], row0[2], row1[0], row1[1], x}
+	src := append([]int{}, epix...)
+	enc := NewEncoder(3, 2, 1, P, near)
+	dec := c07Decoder(P, near)
+	dec.width, dec.height = 3, 2
+	// state of the context the last sample uses (neighbours are reconstructed
+	// values; for the concrete prefix they equal the sources up to NEAR, the
+	// context is looked up with the same quantiser on both sides)
+	N := vrt.Int("N", 1, 64)
+	A := vrt.Int("A", 0, 1<<24-1)
+	B := vrt.Int("B", -63, 0)
+	C := vrt.Int("C", -128, 127)
+	vrt.Assume(B > -N)
+	havoc := func(q1, q2, q3 int) {
+		*enc.contextTable.GetContext(q1, q2, q3) = lossless.Context{A: A, N: N, B: B, C: C}
+		*dec.contextTable.GetContext(q1, q2, q3) = lossless.Context{A: A, N: N, B: B, C: C}
+	}
+	q1, q2, q3 := enc.quantizer.ComputeContext(row1[1], row0[2], row0[1], row0[2])
+	havoc(q1, q2, q3)
+	var buf bytes.Buffer
+	gw := lossless.NewGolombWriter(&buf)
+	var tape, tapeK []int
+	pos := 0
+	if vrt.Symbolic() {
+		// Golomb layer cut to a tape.  The decoder-side stub models what the
+		// real limited-length code does when the decoder calls it with other
+		// parameters than the encoder used: the value comes back unchanged only
+		// if both sides take the same branch (normal code vs escape) with the
+		// same k / escape width; otherwise it is an arbitrary value, so that a
+		// parameter mismatch becomes observable in the decoded samples.
+		vrt.StubWith("(*"+c07LPkg+".GolombWriter).EncodeMappedValue", func(g *lossless.GolombWriter, k, mapped, limit, qbpp int) error {
+			vrt.Assert((mapped>>uint(k)) < limit-(qbpp+1) || mapped-1 < 1<<uint(qbpp), "C07 mapped error is representable by the limited-length Golomb code")
+			tape = append(tape, mapped)
+			tapeK = append(tapeK, k, limit, qbpp)
+			return nil
+		})
+		vrt.StubWith("(*"+c07LPkg+".GolombReader).DecodeValue", func(g *lossless.GolombReader, k2, limit2, qbpp2 int) (int, error) {
+			m := tape[pos]
+			k1, l1, q1 := tapeK[3*pos], tapeK[3*pos+1], tapeK[3*pos+2]
+			pos++
+			hb := m >> uint(k1)
+			encNormal := hb < l1-(q1+1)
+			decNormal := hb < limit2-(qbpp2+1)
+			if encNormal && decNormal && k1 == k2 {
+				return m, nil
+			}
+			if !encNormal && l1 == limit2 && q1 == qbpp2 {
+				return m, nil
+			}
+			return vrt.Int("desync", 0, 1<<20), nil
+		})
+	}
+	err := enc.encodeComponent(gw, epix, 0)
+	vrt.Assert(err == nil, "C07 encodeComponent returns no error")
+	_ = gw.Flush()
+	gr := lossless.NewGolombReader(bytes.NewReader(buf.Bytes()))
+	dpix := make([]int, 6)
+	err = dec.decodeComponent(gr, dpix, 0)
+	vrt.Assert(err == nil, "C07 decodeComponent returns no error")
+	bad := 0
+	for i := range src {
+		df := dpix[i] - src[i]
+		if df > near || df < -near || dpix[i] < 0 || dpix[i] > maxVal {
+			bad |= 1
+		}
+	}
+	vrt.Assert(bad == 0, "C07 single-component coder: every decoded sample within NEAR of the source and in range")
+	vrt.Out("px", dpix[5])
 }
